@@ -32,7 +32,7 @@ class AddGuard(Contract):
     name = "pysnark.runtime:add_guard"
     assigns = GUARD_STATE
     vprops = ("C08",)
-    fprops = ("C08",)
+    fprops = ("C08", "C07")      # C07 rests on the state these functions maintain: errors stay off while ANY enclosing guard is false
     cprops = sprops = eprops = ()
     tprops = ("C06",)       # entering a nested region must cost the same constraints whatever the outer guard's value
     guard_relevant = False
@@ -107,7 +107,7 @@ class RestoreGuard(Contract):
     name = "pysnark.runtime:restore_guard"
     assigns = GUARD_STATE
     vprops = ("C08",)
-    fprops = ("C08",)
+    fprops = ("C08", "C07")      # C07 rests on the state these functions maintain: errors stay off while ANY enclosing guard is false
     cprops = sprops = eprops = tprops = ()
     guard_relevant = False
 
@@ -142,7 +142,7 @@ class Guarded(Contract):
     name = "pysnark.runtime:guarded.<locals>._guarded.<locals>.__guarded"
     assigns = GUARD_STATE
     vprops = ("C08",)
-    fprops = ("C08",)
+    fprops = ("C08", "C07")      # C07 rests on the state these functions maintain: errors stay off while ANY enclosing guard is false
     cprops = sprops = eprops = tprops = ()
     guard_relevant = False
     modules = ("pysnark.runtime", "pysnark.boolean")
